@@ -36,6 +36,9 @@ var (
 
 // NewMMapRWManager returns a newly initialized MMapRWManager.
 func NewMMapRWManager(path string, capacity int64) (*MMapRWManager, error) {
+	if vf := verifOp("open", path, 0, 0, nil); vf != nil {
+		return nil, vf.Err
+	}
 	f, err := os.OpenFile(path, os.O_CREATE|os.O_RDWR, 0644)
 	defer f.Close()
 
@@ -53,6 +56,12 @@ func NewMMapRWManager(path string, capacity int64) (*MMapRWManager, error) {
 		return nil, err
 	}
 
+	if verifEnabled {
+		mm := &MMapRWManager{m: m}
+		verifRegister(mm, path)
+		return mm, nil
+	}
+
 	return &MMapRWManager{m: m}, nil
 }
 
@@ -65,12 +74,20 @@ func (mm *MMapRWManager) WriteAt(b []byte, off int64) (n int, err error) {
 		return 0, ErrIndexOutOfBound
 	}
 
+	if vf := verifOp("write", verifPathOf(mm), off, int64(len(b)), b); vf != nil {
+		if vf.Partial > 0 {
+			copy(mm.m[off:], b[:vf.Partial])
+		}
+		return vf.Partial, vf.Err
+	}
+
 	return copy(mm.m[off:], b), nil
 }
 
 // ReadAt copies data to b slice from mapped region starting at
 // given off and returns number of bytes copied to the b slice.
 func (mm *MMapRWManager) ReadAt(b []byte, off int64) (n int, err error) {
+	verifOp("read", verifPathOf(mm), off, int64(len(b)), nil)
 	if mm.m == nil {
 		return 0, ErrUnmappedMemory
 	} else if off >= int64(len(mm.m)) || off < 0 {
@@ -82,10 +99,15 @@ func (mm *MMapRWManager) ReadAt(b []byte, off int64) (n int, err error) {
 
 // Sync synchronizes the mapping's contents to the file's contents on disk.
 func (mm *MMapRWManager) Sync() (err error) {
+	if vf := verifOp("sync", verifPathOf(mm), 0, 0, nil); vf != nil {
+		return vf.Err
+	}
 	return mm.m.Flush()
 }
 
 //Close deletes the memory mapped region, flushes any remaining changes
 func (mm *MMapRWManager) Close() (err error) {
+	verifOp("close", verifPathOf(mm), 0, 0, nil)
+	verifForget(mm)
 	return mm.m.Unmap()
 }
